@@ -1015,6 +1015,55 @@ def run_family(shard, ctx):
 
 
 # ---------------------------------------------------------------------------
+# index-skipping traces (what column selection by mask / index array and remove_gaps() hand out):
+# strictly increasing, but not consecutive indices per row
+# ---------------------------------------------------------------------------
+def skipping_subtraces(t, nrows):
+    """every trace obtained from t by keeping a proper non-empty subset of its columns in which at least
+    one row skips an index (the other subsets are traces of the plain families)"""
+    m = len(t)
+    for keep in itertools.product((False, True), repeat=m):
+        if all(keep) or not any(keep):
+            continue
+        sub = tuple(c for c, k in zip(t, keep) if k)
+        skips = False
+        for r in range(nrows):
+            idx = [c[r] for c in sub if c[r] != M.GAP]
+            if any(b - a != 1 for a, b in zip(idx, idx[1:])):
+                skips = True
+                break
+        if skips:
+            yield sub
+
+
+def run_skip(shard, ctx):
+    lens = tuple(shard["lens"])
+    e = env(shard["pal"])
+    part, parts = shard["part"], shard["parts"]
+    abstract = list(letter_words(lens))
+    words = [[e.letters(w) for w in ws] for ws in abstract]
+    seen = set()
+    idx = -1
+    for _ranges, t in structures(lens, full_only=True):
+        for sub in skipping_subtraces(t, len(lens)):
+            if sub in seen:
+                continue
+            seen.add(sub)
+            idx += 1
+            if idx % parts != part:
+                continue
+            ctx.count("skipping_traces")
+            for seqs in words:
+                cs = json.dumps({"kind": "conv", "pal": e.pi, "seqs": seqs, "trace": sub})
+                if not ctx.journal(cs):
+                    continue
+                b = run_battery(ctx, e, seqs, sub, ctx.tier, struct_level=False, letter_level=True,
+                                cigar_letters=False)
+                if len(ctx.samples) < 1 and idx % 11 == 5:
+                    ctx.sample({"seqs": seqs, "gapped": M.gapped_strings(seqs, sub), "class": b.cls + "+skipping"})
+
+
+# ---------------------------------------------------------------------------
 # cigar reader family
 # ---------------------------------------------------------------------------
 READ_OPS = "MIDNSH=X"
@@ -1991,6 +2040,11 @@ def shards(tier, seed):
             out.append({"kind": "flavour", "pal": p, "lens": list(lens)})
     for lens in ([(2, 2), (2, 1)] if q else [(2, 2), (2, 1), (1, 2), (3, 2), (1, 1, 1)]):
         out.append({"kind": "flavour", "pal": GEN_PAL, "lens": list(lens)})
+    for lens in ([(3, 2), (2, 3)] if q else [(3, 2), (2, 3), (3, 3), (2, 2, 1), (3, 1, 1)]):
+        for p in ([pi] if q else allp[:2]):
+            parts = 4 if sum(lens) <= 5 else 16
+            for k in range(parts):
+                out.append({"kind": "skip", "lens": list(lens), "pal": p, "part": k, "parts": parts})
     out.append({"kind": "msa_alpha", "dist": False})
     out.append({"kind": "msa_alpha", "dist": True})
     # cigar reader
@@ -2034,7 +2088,7 @@ def shards(tier, seed):
     out.append({"kind": "misuse", "pal": pi})
     # heaviest first
     weight = {"msa": 0, "family": 1, "produced": 2, "cigar": 3, "misuse": 4, "many": 2, "flavour": 2, "msa_alpha": 1,
-              "long": 3, "edge": 3, "reuse": 4}
+              "long": 3, "edge": 3, "reuse": 4, "skip": 2}
     out.sort(key=lambda s: weight[s["kind"]])
     return out
 
@@ -2063,6 +2117,8 @@ def run_shard(shard, ctx):
         run_reuse(shard, ctx)
     elif k == "msa_alpha":
         run_msa_alpha(shard, ctx)
+    elif k == "skip":
+        run_skip(shard, ctx)
     else:
         raise ValueError(shard)
 
@@ -2072,7 +2128,12 @@ def replay(case, ctx):
         case = json.loads(case)
     k = case["kind"]
     e = env(case["pal"])
-    if k == "conv":
+    if k == "conv" and any(b - a != 1 for r in range(len(case["seqs"])) for a, b in zip(
+            *(lambda idx: (idx, idx[1:]))([c[r] for c in case["trace"] if c[r] != M.GAP]))):
+        # index-skipping trace (family 'skip'): letter-level parts only, as in run_skip
+        run_battery(ctx, e, case["seqs"], [tuple(c) for c in case["trace"]], ctx.tier, struct_level=False,
+                    letter_level=True, cigar_letters=False)
+    elif k == "conv":
         run_battery(ctx, e, case["seqs"], [tuple(c) for c in case["trace"]], ctx.tier,
                     getitem=len(case["trace"]) <= 8 and len(case["seqs"]) <= 3, flavour=case.get("flavour", "int64"))
     elif k == "argflav":
